@@ -19,30 +19,26 @@ def docLevel : BinOp → Nat
   | .add | .sub | .bor | .xor => 4
   | .mul | .div | .mod | .band | .shl | .shr => 5
 
-/-- **Table shape.** The regenerated binding-power table has exactly the documented five
-levels in the documented order, every operator has `left < right` (left associativity),
-levels do not interleave, and no other token of the alphabet is a binary operator. -/
+/-- **Table shape.** In the regenerated binding-power table every documented operator sits on its
+documented level, the five levels are in the documented order, every binary operator — a later
+addition too — has `left < right` (left associativity), and the levels do not interleave.
+(Open-world since harmless change C/h1: an operator ADDED to the table does not falsify it; a
+documented operator that moves, or any operator that is not left-associative, does.) -/
 theorem bp_table_shape :
     (∀ b : BinOp, binaryBp b.kind = some (2 * docLevel b - 1, 2 * docLevel b)) ∧
     (∀ b : BinOp, lbp b < rbp b) ∧
     (∀ a b : BinOp, lbp a < lbp b ↔ docLevel a < docLevel b) ∧
     (∀ a b : BinOp, lbp a < lbp b → rbp a ≤ lbp b) ∧
-    (∀ k : Kind, binaryBp k ≠ none → ∃ b : BinOp, k = b.kind) ∧
-    (binaryTable.map (·.1)).length = 18 := by
+    (∀ (k : Kind) (l r : Nat), binaryBp k = some (l, r) → l < r) ∧
+    (∀ b : BinOp, (b.kind, lbp b, rbp b) ∈ binaryTable) := by
   refine ⟨?_, ?_, ?_, ?_, ?_, ?_⟩
   · intro b; cases b <;> rfl
   · intro b; cases b <;> decide
   · intro a b; cases a <;> cases b <;> decide
   · intro a b; cases a <;> cases b <;> decide
-  · intro k hk
-    cases k <;> first
-      | exact absurd rfl hk
-      | exact ⟨.lor, rfl⟩ | exact ⟨.land, rfl⟩ | exact ⟨.lt, rfl⟩ | exact ⟨.le, rfl⟩
-      | exact ⟨.gt, rfl⟩ | exact ⟨.ge, rfl⟩ | exact ⟨.eq, rfl⟩ | exact ⟨.ne, rfl⟩
-      | exact ⟨.add, rfl⟩ | exact ⟨.sub, rfl⟩ | exact ⟨.bor, rfl⟩ | exact ⟨.xor, rfl⟩
-      | exact ⟨.mul, rfl⟩ | exact ⟨.div, rfl⟩ | exact ⟨.mod, rfl⟩ | exact ⟨.band, rfl⟩
-      | exact ⟨.shl, rfl⟩ | exact ⟨.shr, rfl⟩
-  · rfl
+  · intro k l r h
+    cases k <;> simp [binaryBp] at h <;> omega
+  · intro b; cases b <;> decide
 
 /-- The prefix operator set, the postfix starters and the flag arguments of the call
 sites are the ones the model's arms are written for. -/
